@@ -1542,7 +1542,7 @@ def search_ff2(ctx, eq_batch):
     rng = ctx.rng
 
     def gen():
-        for _ in range(ctx.budget(120, 1200)):
+        for _ in range(ctx.budget(250, 2000)):
             p = ff_program(rng)
             q = ff_variant(rng, p)
             if q is None:
